@@ -160,6 +160,10 @@ def c01(report, rng, tier, findings):
     n = n_cases(tier, 320, 4000)
     cfg = gen.Cfg(n_vars=(1, 1), n_objs=(2, 6), depth=3 if tier == 'quick' else 5, dup_domain=0.0)
     cases = [gen.gen_case(rng, cfg, f'c{i}') for i in range(n)]
+    for c in cases:
+        if rng.random() < 0.1:
+            gen.apply_truth_operand_template(rng, c)     # one attribute as a bare condition AND as a comparison operand
+            report.count('one_attribute_as_condition_and_as_operand')
     report.rule = ("random single-variable queries: 0-6 distinct objects over a small class hierarchy, condition trees "
                    f"of depth <= {cfg.depth} over the six comparisons (literal on either side), membership both ways, "
                    "attribute/index/method-call chains, boolean attributes and calls, function and class predicates, "
